@@ -445,6 +445,10 @@ def finish(mod, tier, seed, st, t0):
     flaky = [f for f in flaky if _base(f[0]["sig"]) not in okb]
     if dropped:
         print("note: %d candidate(s) seen only in a long-lived worker were not reproducible on their own; the same signature is confirmed by another case" % len(dropped))
+    nrep = st.extra.get("failures_not_reproducible_in_a_fresh_interpreter", 0)
+    if nrep and not confirmed and not flaky:
+        print("HARNESS-ERROR: %d failing transitions were seen in long-lived workers but none reproduces in a fresh interpreter (alone or after a recent history)" % nrep)
+        return 2
     if flaky:
         for v, oks in flaky[:5]:
             print("HARNESS-ERROR: non-reproducible candidate sig=%s replays=%r" % (v["sig"], oks))
